@@ -5,6 +5,7 @@ use crate::core::{Failure, Report};
 
 pub mod c01;
 pub mod c02;
+pub mod c03;
 pub mod c04;
 pub mod c05;
 pub mod c06;
@@ -26,6 +27,7 @@ pub fn run(prop: &str, report: &Report) -> i32 {
     match prop {
         "C01" => c01::run(report),
         "C02" => c02::run(report),
+        "C03" => c03::run(report),
         "C04" => c04::run(report),
         "C05" => c05::run(report),
         "C06" => c06::run(report),
@@ -49,6 +51,8 @@ pub fn replay(f: &Failure) -> i32 {
     match f.check.as_str() {
         "c01a" => crate::core::replay_case(f, c01::case_a),
         "c02" => crate::core::replay_case(f, c02::case),
+        "c03_frames" => crate::core::replay_case(f, c03::case),
+        "c03_tp" => crate::core::replay_case(f, c03::case_tp),
         "c04" => crate::core::replay_case(f, c04::case),
         "c05" => crate::core::replay_case(f, c05::case),
         "c06" => crate::core::replay_case(f, c06::case),
